@@ -369,6 +369,8 @@ def _extract_flowed_energy_density(path, prefix, dtr_read, xmin, spatial_extent,
                     if nc % dtr_read == 0:
                         Ysl.append(struct.unpack('d' * tmax * (nn + 1), t))
                 t = fp.read(8 * tmax * (nn + 1))
+                if len(t) < 8 * tmax * (nn + 1):
+                    raise Exception('Incomplete record for trajectory %d in file %s' % (nc, ls[rep]))
 
         Ysum.append([])
         for i, item in enumerate(Ysl):
@@ -939,6 +941,8 @@ def _read_flow_obs(path, prefix, c, dtr_cnfg=1, version="openQCD", obspos=0, sum
                     for j in range(ncs + 1):
                         for i in range(iobs):
                             t = fp.read(8 * tmax)
+                            if len(t) < 8 * tmax:
+                                raise Exception('Incomplete record for trajectory %d in file %s' % (traj_list[-1], file))
                             if (i == obspos):  # determines the flow observable -> i=0 <-> Zeuthen flow
                                 Q.append(struct.unpack('d' * tmax, t))
 
